@@ -1450,6 +1450,8 @@ def getattr(I, obj, name):
         raise Unsupported('attribute %s of type %s' % (name, obj.name))
     if isinstance(obj, Unknown):
         raise Unsupported('use of unmodelled %s' % obj.name)
+    if type(obj).__name__ == 'BroadcastV' and name == 'shape':
+        return obj.shape
     raise Unsupported('attribute %s of %r' % (name, obj))
 
 
@@ -1536,6 +1538,21 @@ def setattr(I, obj, name, v):
             raise Unsupported('reshape to a 0-d array')
         I.st.note_write(obj)
         I.st.heap[obj] = [_lib.nd_build(I, y) for y in new]
+        return
+    if name == 'flat' and isinstance(obj, Ref) and obj.kind == 'clist' and obj.nd:
+        # a.flat = values: the entries in row-major order are overwritten (values cycled / truncated to the array's size)
+        from . import lib as _lib
+        n = _lib.nd_nested(I, obj)
+        vals = [v] if numkind(v) is not None else concrete_iter(I, v)
+        if n is None or vals is None or any(is_list(y) for y in vals):
+            raise Unsupported('flat assignment with a symbolic shape')
+        size = len(_lib.nd_flat(n))
+        if size and not vals:
+            raise PyExc('ValueError', 'cannot assign an empty sequence to flat')
+        flatv = [_store_cast(I, obj, vals[q % len(vals)]) for q in range(size)]
+        new = _lib.nd_reshape(flatv, _lib.nd_shape(n)) if size else []
+        I.st.note_write(obj)
+        I.st.heap[obj] = [_lib.nd_build(I, y) for y in new] if isinstance(new, list) else [new]
         return
     raise Unsupported('attribute assignment on %r' % (obj,))
 
